@@ -1,7 +1,7 @@
 package main
 
-// roles: which field of parser.Parser plays which role of the C08 model (Model/Reuse.v, pfield).  The model's columns
-// are named after roles; the current name of the field that plays a role is found by
+// roles: which field of parser.Parser / tokenizer.Tokenizer plays which role of the C08 model (Model/Reuse.v, pfield /
+// tfield).  The model's columns are named after roles; the current name of the field that plays a role is found by
 //
 //	depth        the counter identified by the C02 recogniser (depthguard.go): stepped +1, -1 in a deferred callee, compared
 //	             with a constant
@@ -11,7 +11,14 @@ package main
 // When the type does not single out one field, the field with the role's own name is taken (the pinned tree's names);
 // a role no field plays is left out (Inst_C08 then fails: the model has a column the code has not).  Fields that play no
 // role are "extra" fields: Inst_C08 admits them when their regenerated column satisfies the generic footprint condition.
-// Tokenizer: roles are the field names themselves.
+//
+// Tokenizer (tokenizerRoleMap): input, lineStarts, line, keywords, dialect, logger, configured, Comments by type ([]byte,
+// []int, int, *keywords.Keywords, keywords.SQLDialect, *slog.Logger, bool, []models.Comment);
+//	pos        the field through which the field playing "input" is indexed (a component of it is the index): the cursor
+//	lineStart  the other field of the cursor's type
+//	loc        the field the position conversion writes: the methods of *Tokenizer that return a models.Location store
+//	           to no other field (the resume point of the conversion); failing that, the only remaining field whose type
+//	           is a struct declared in the package
 import (
 	"go/token"
 	"go/types"
@@ -35,8 +42,122 @@ var parserRoles = []roleSpec{
 	{"currentPos", "int"},
 }
 
+var tokenizerRoles = []roleSpec{
+	{"input", "[]byte"},
+	{"lineStarts", "[]int"},
+	{"line", "int"},
+	{"keywords", "*keywords.Keywords"},
+	{"dialect", "keywords.SQLDialect"},
+	{"logger", "*slog.Logger"},
+	{"configured", "bool"},
+	{"Comments", "[]models.Comment"},
+}
+
+// byType: assign the roles of specs that the field types decide (a role whose type several free fields have goes to
+// the field with the role's own name, the pinned tree's)
+func byType(st *types.Struct, specs []roleSpec, roles map[string]string, taken map[int]bool, refine func(role string, cands []int) []int) {
+	qual := func(q *types.Package) string { return q.Name() }
+	for _, rs := range specs {
+		var cands []int
+		for i := 0; i < st.NumFields(); i++ {
+			if !taken[i] && types.TypeString(st.Field(i).Type(), qual) == rs.typ {
+				cands = append(cands, i)
+			}
+		}
+		if refine != nil && len(cands) > 1 {
+			cands = refine(rs.role, cands)
+		}
+		pick := -1
+		if len(cands) == 1 {
+			pick = cands[0]
+		} else {
+			for i := 0; i < st.NumFields(); i++ { // not decided by the type: the pinned name
+				if !taken[i] && st.Field(i).Name() == rs.role {
+					pick = i
+				}
+			}
+		}
+		if pick >= 0 {
+			roles[rs.role] = st.Field(pick).Name()
+			taken[pick] = true
+		}
+	}
+}
+
+func tokenizerRoleMap(a *fxAnalysis, st *types.Struct) map[string]string {
+	roles := map[string]string{}
+	taken := map[int]bool{}
+	byType(st, tokenizerRoles, roles, taken, nil)
+	assign := func(role string, cands []int) {
+		pick := -1
+		if len(cands) == 1 {
+			pick = cands[0]
+		} else {
+			for i := 0; i < st.NumFields(); i++ {
+				if !taken[i] && st.Field(i).Name() == role {
+					pick = i
+				}
+			}
+		}
+		if pick >= 0 {
+			roles[role] = st.Field(pick).Name()
+			taken[pick] = true
+		}
+	}
+	free := func(pred func(i int) bool) []int {
+		var out []int
+		for i := 0; i < st.NumFields(); i++ {
+			if !taken[i] && pred(i) {
+				out = append(out, i)
+			}
+		}
+		return out
+	}
+	// pos: the cursor
+	in := -1
+	if n, ok := roles["input"]; ok {
+		in = fieldIndex(st, n)
+	}
+	assign("pos", free(func(i int) bool { return a.indexes(i, in) }))
+	// lineStart: the other field of the cursor's type
+	if n, ok := roles["pos"]; ok {
+		pt := st.Field(fieldIndex(st, n)).Type()
+		assign("lineStart", free(func(i int) bool { return types.Identical(st.Field(i).Type(), pt) }))
+	} else {
+		assign("lineStart", nil)
+	}
+	// loc: written by the position conversion
+	var w fset
+	for _, fn := range a.fns {
+		if r := fn.Signature.Recv(); r == nil || !a.isTargetPtr(r.Type()) || fn.Signature.Results().Len() != 1 {
+			continue
+		}
+		if n, ok := fn.Signature.Results().At(0).Type().(*types.Named); ok && n.Obj().Name() == "Location" && n.Obj().Pkg() != nil && n.Obj().Pkg().Name() == "models" {
+			if s := a.sum[fn]; s != nil {
+				w |= s.mayWrite
+			}
+		}
+	}
+	cands := free(func(i int) bool { return w&(fset(1)<<uint(i)) != 0 })
+	if len(cands) != 1 {
+		cands = free(func(i int) bool {
+			n, ok := st.Field(i).Type().(*types.Named)
+			if !ok || n.Obj().Pkg() != a.pkg.Pkg {
+				return false
+			}
+			_, isStruct := n.Underlying().(*types.Struct)
+			return isStruct
+		})
+	}
+	assign("loc", cands)
+	return roles
+}
+
 func fieldRoles(a *fxAnalysis, st *types.Struct, typeName string) map[string]string {
 	roles := map[string]string{}
+	if typeName == "Tokenizer" {
+		return tokenizerRoleMap(a, st)
+	}
 	if typeName != "Parser" {
 		for i := 0; i < st.NumFields(); i++ {
 			roles[st.Field(i).Name()] = st.Field(i).Name()
@@ -117,9 +238,22 @@ func (a *fxAnalysis) indexes(g, h int) bool {
 		switch x := v.(type) {
 		case *ssa.UnOp:
 			if x.Op == token.MUL {
-				k, ok := a.fieldOf(x.X)
-				return ok && k == f
+				// a load of the field, or of a component of it (x.f.g)
+				addr := x.X
+				for i := 0; i < 4; i++ {
+					if k, ok := a.fieldOf(addr); ok {
+						return k == f
+					}
+					fa, ok := addr.(*ssa.FieldAddr)
+					if !ok {
+						return false
+					}
+					addr = fa.X
+				}
+				return false
 			}
+		case *ssa.Field:
+			return from(x.X, f, d+1)
 		case *ssa.BinOp:
 			return from(x.X, f, d+1) || from(x.Y, f, d+1)
 		case *ssa.Convert:
